@@ -48,9 +48,13 @@ def jobs(tier, seed):
         ss = g8sizes if k == 2 else gsizes
         for s in ss:
             extra = ["--nondet-static"] if k == 1 else []
+            tu = {1: "src/lib_stable/reed-solomon_gf_2_8/of_reed-solomon_gf_2_8.c",
+                  2: "src/lib_stable/reed-solomon_gf_2_m/galois_field_codes_utils/algebra_2_8.c",
+                  3: "src/lib_stable/reed-solomon_gf_2_m/galois_field_codes_utils/algebra_2_4.c",
+                  4: "src/lib_stable/reed-solomon_gf_2_m/galois_field_codes_utils/algebra_2_4.c"}[k]
             js.append(Job("gf.%s.size%d" % (KNAME[k], s), "gf_addmul_" + KNAME[k], "c13_gf_addmul.c", [KNAME[k]],
                           defines={"OFV_SIZE": s, "OFV_KERNEL": k}, unwind=max(20, s + 2),
-                          solver="z3" if k in (1, 2) else "cadical", extra_cbmc=extra, timeout=600, mem_gb=4, status="bounded",
+                          solver="z3" if k in (1, 2) else "cadical", extra_cbmc=extra, tu_included=[tu], timeout=600, mem_gb=4, status="bounded",
                           bound="one run per size: %d..%d (%d values); field constant, all contents symbolic, every byte checked"
                                 % (ss[0], ss[-1], len(ss))))
     return js
